@@ -860,26 +860,280 @@ def _check_one_omp_loop(ctx, rule, path, fname, kernel, directive) -> None:
     ctx.obligation(rule, key_base + "|writes", not problems, f"src/{fname}:{line_of(loop)}", writes=n_writes, clauses=clauses)
     for ln, msg in problems[:3]:
         ctx.violation(rule, key_base + f"|shared-write|{msg[:60]}", path, ln, msg + " (data race: the result depends on the schedule)", "")
-    # remainder branch: the variable handed to set_offset_max gets idx_max - 1 for the last job
-    ok_rem = False
-    for n in walk(body):
-        if n.get("kind") == "IfStmt":
-            cond = n["inner"][0]
-            txt_ids = {x.get("referencedDecl", {}).get("id") for x in walk(cond) if x.get("kind") == "DeclRefExpr"}
-            is_eq = any(x.get("kind") == "BinaryOperator" and x.get("opcode") == "==" for x in walk(cond))
-            if is_eq and txt_ids & ind_ids:
-                for a in walk(n["inner"][1]):
-                    if a.get("kind") == "BinaryOperator" and a.get("opcode") == "=":
-                        l = strip(a["inner"][0])
-                        if isinstance(l, dict) and l.get("kind") == "DeclRefExpr" and l["referencedDecl"].get("name") == "offset_max":
-                            ok_rem = True
-    ctx.obligation(rule, key_base + "|last-job-takes-remainder", ok_rem, f"src/{fname}:{line_of(loop)}")
-    if not ok_rem:
-        ctx.violation(rule, key_base + "|last-job-takes-remainder", path, line_of(loop),
-                      "the job partition has no branch giving the last job the remainder of the Gray-code range "
-                      "(offset_max = idx_max - 1 when job_idx == concurrency - 1): whenever idx_max is not a multiple of the "
-                      "concurrency, terms are dropped and the permanent depends on the number of hardware threads",
-                      "if (job_idx == concurrency - 1) offset_max = idx_max - 1;")
+    _check_partition(ctx, rule, key_base, path, fname, loop, body, ind_ids)
+
+
+# ---------------------------------------------------------------------------------------------- job partition
+
+
+def _check_partition(ctx, rule, key_base, path, fname, loop, body, ind_ids) -> None:
+    """The jobs of the parallel loop tile the Gray-code range exactly, for every job count K and range M >= K.
+
+    From the loop body the start S(j) (the offset the Gray-code counter is constructed with) and the inclusive end E(j)
+    (the argument of set_offset_max) are read as integer expressions in the job index j, the job count K and the range
+    M (C++ `/` and `%` on M and K become q and r with M = q*K + r, q >= 1, 0 <= r < K).  Decided:
+        S(0) = 0        E(K-1) = M - 1        S(j+1) = E(j) + 1  (0 <= j < K-1)        inner loop runs S+1 .. E
+    by splitting on the (finitely many) truth assignments of the comparisons that occur, and proving the polynomial
+    identity in each.  A violation is only reported together with a concrete (M, K, j) at which the extracted formulas
+    leave a gap or an overlap."""
+    import itertools
+    import sympy as sp
+
+    cond = strip(loop["inner"][2]) if len(loop.get("inner", [])) > 2 else None
+    if not (isinstance(cond, dict) and cond.get("kind") == "BinaryOperator" and cond.get("opcode") == "<"):
+        raise AnalysisError(f"{rule}: the condition of the parallel loop in {fname} is not `job < count` (partition undecided)")
+    kref = strip(cond["inner"][1])
+    if not (isinstance(kref, dict) and kref.get("kind") == "DeclRefExpr"):
+        raise AnalysisError(f"{rule}: the job count of the parallel loop in {fname} is not a variable (partition undecided)")
+    K_id = kref["referencedDecl"]["id"]
+    j, K, q, r = sp.symbols("j K q r", integer=True)
+    idiv, imod = sp.Function("idiv"), sp.Function("imod")
+    outer: Dict[str, sp.Symbol] = {}
+    env: Dict[str, Any] = {}
+
+    def tr(e):
+        e = strip(e)
+        if not isinstance(e, dict):
+            raise AnalysisError(f"{rule}: empty expression in the partition of {fname}")
+        k = e.get("kind")
+        if k == "IntegerLiteral":
+            return sp.Integer(int(e["value"]))
+        if k == "DeclRefExpr":
+            did = e["referencedDecl"]["id"]
+            if did in ind_ids:
+                return j
+            if did == K_id:
+                return K
+            if did in env:
+                return env[did]
+            nm = e["referencedDecl"].get("name", did)
+            return outer.setdefault(did, sp.Symbol(nm, integer=True))
+        if k == "UnaryOperator" and e.get("opcode") == "-":
+            return -tr(e["inner"][0])
+        if k == "UnaryOperator" and e.get("opcode") == "!":
+            return sp.Not(tr(e["inner"][0]))
+        if k == "BinaryOperator":
+            a, b = tr(e["inner"][0]), tr(e["inner"][1])
+            o = e.get("opcode")
+            if o == "+":
+                return a + b
+            if o == "-":
+                return a - b
+            if o == "*":
+                return a * b
+            if o == "/":
+                return idiv(a, b)
+            if o == "%":
+                return imod(a, b)
+            rel = {"==": sp.Eq, "!=": sp.Ne, "<": sp.Lt, "<=": sp.Le, ">": sp.Gt, ">=": sp.Ge}.get(o)
+            if rel is not None:
+                return rel(a, b, evaluate=False) if o in ("==", "!=") else rel(a, b)
+            if o == "&&":
+                return sp.And(a, b)
+            if o == "||":
+                return sp.Or(a, b)
+        if k == "ConditionalOperator":
+            c, a, b = (tr(x) for x in e["inner"][:3])
+            return sp.Piecewise((a, c), (b, True))
+        raise AnalysisError(f"{rule}: `{k}` is outside the integer fragment read for the job partition of {fname} (undecided)")
+
+    def assign_block(stmt, guard):
+        for a in ([stmt] if stmt.get("kind") != "CompoundStmt" else stmt.get("inner", [])):
+            a_ = strip(a)
+            if a_.get("kind") == "BinaryOperator" and a_.get("opcode") == "=":
+                l = strip(a_["inner"][0])
+                if l.get("kind") == "DeclRefExpr" and l["referencedDecl"]["id"] in env:
+                    did = l["referencedDecl"]["id"]
+                    env[did] = sp.Piecewise((tr(a_["inner"][1]), guard), (env[did], True))
+                    continue
+            raise AnalysisError(f"{rule}: statement under `if` in the job partition of {fname} is not an assignment to a partition variable (undecided)")
+
+    S = E = None
+    inner_loop = None
+    for st in body.get("inner", []):
+        k = st.get("kind")
+        if k == "DeclStmt":
+            for d in st.get("inner", []):
+                if d.get("kind") != "VarDecl":
+                    continue
+                initn = next((c for c in d.get("inner", []) if isinstance(c, dict)), None)
+                ctor = strip(initn) if initn else None
+                if isinstance(ctor, dict) and ctor.get("kind") == "CXXConstructExpr" and "GrayCodeCounter" in ctor.get("type", {}).get("qualType", ""):
+                    args = ctor.get("inner", [])
+                    if len(args) >= 3 and S is None:
+                        S = tr(args[-1])
+                    continue
+                tb = type_bits((d.get("type", {}).get("desugaredQualType") or d.get("type", {}).get("qualType", "")))
+                if initn is not None and tb is not None and S is None:
+                    try:
+                        env[d["id"]] = tr(initn)
+                    except AnalysisError:
+                        pass  # not an integer expression of the fragment: it cannot be referenced by S or E (tr would raise there)
+        elif k == "IfStmt" and (S is None or E is None):
+            parts = st.get("inner", [])
+            try:
+                g = tr(parts[0])
+            except AnalysisError:
+                continue
+            touches = any(x.get("kind") == "BinaryOperator" and x.get("opcode") == "=" and strip(x["inner"][0]).get("kind") == "DeclRefExpr"
+                          and strip(x["inner"][0])["referencedDecl"]["id"] in env for x in walk(parts[1]))
+            if not touches:
+                continue
+            assign_block(parts[1], g)
+            if len(parts) > 2:
+                assign_block(parts[2], sp.Not(g))
+        elif k == "BinaryOperator" and st.get("opcode") == "=" and (S is None or E is None):
+            l = strip(st["inner"][0])
+            if l.get("kind") == "DeclRefExpr" and l["referencedDecl"]["id"] in env:
+                env[l["referencedDecl"]["id"]] = tr(st["inner"][1])
+        elif k == "CXXMemberCallExpr":
+            me = st["inner"][0]
+            if me.get("kind") == "MemberExpr" and me.get("name") == "set_offset_max" and len(st["inner"]) > 1:
+                E = tr(st["inner"][1])
+        elif k == "ForStmt" and S is not None and E is not None and inner_loop is None:
+            iv = [n for n in walk(st["inner"][0]) if n.get("kind") == "VarDecl"] if st.get("inner") and st["inner"][0] else []
+            if iv:
+                init_e = next((c for c in iv[0].get("inner", []) if isinstance(c, dict)), None)
+                try:
+                    lo = tr(init_e) if init_e else None
+                except AnalysisError:
+                    lo = None
+                if lo is not None and (lo.free_symbols & (S.free_symbols | {j})) and lo != 0:
+                    c2 = strip(st["inner"][2])
+                    if c2.get("kind") == "BinaryOperator" and c2.get("opcode") in ("<", "<="):
+                        hi = tr(c2["inner"][1]) + (1 if c2["opcode"] == "<=" else 0)  # exclusive
+                        inner_loop = (lo, hi, line_of(st))
+    if S is None or E is None:
+        raise AnalysisError(f"{rule}: anchor vanished: the Gray-code counter construction / set_offset_max call in the parallel loop of {fname}")
+    M_syms = [v for v in outer.values() if v in (S.free_symbols | E.free_symbols)]
+    if len(M_syms) != 1:
+        raise AnalysisError(f"{rule}: the job partition of {fname} depends on {sorted(map(str, M_syms))}; expected exactly the range length (undecided)")
+    M = M_syms[0]
+
+    def norm_(e):
+        e = e.replace(lambda x: isinstance(x, sp.Function) and x.func == idiv and x.args == (M, K), lambda x: q)
+        e = e.replace(lambda x: isinstance(x, sp.Function) and x.func == imod and x.args == (M, K), lambda x: r)
+        e = e.subs(M, q * K + r)
+        if e.atoms(sp.Function) - e.atoms(sp.Piecewise):
+            left = [a for a in e.atoms(sp.Function) if a.func in (idiv, imod)]
+            if left:
+                raise AnalysisError(f"{rule}: the job partition of {fname} divides something other than range/count: {left[0]} (undecided)")
+        return e
+
+    S, E = norm_(S), norm_(E)
+    Mq = q * K + r
+    obligations = [
+        ("first job starts at 0", S.subs(j, 0), sp.Integer(0), "j0"),
+        ("last job ends at the last index", E.subs(j, K - 1), Mq - 1, "jlast"),
+        ("job j+1 starts right after job j ends", S.subs(j, j + 1), E + 1, "jmid"),
+    ]
+    if inner_loop is not None:
+        lo, hi, _ln = inner_loop
+        obligations.append(("the job's own loop starts at S+1", norm_(lo), S + 1, "any"))
+        obligations.append(("the job's own loop ends at E (inclusive)", norm_(hi), E + 1, "any"))
+    else:
+        raise AnalysisError(f"{rule}: anchor vanished: the loop over the job's own index range in {fname}")
+
+    def points(dom):
+        for Kv in range(1, 10):
+            for rv in range(0, Kv):
+                for qv in (1, 2, 3):
+                    if dom == "j0":
+                        js = [0]
+                    elif dom == "jlast":
+                        js = [Kv - 1]
+                    elif dom == "jmid":
+                        js = list(range(0, Kv - 1))
+                    else:
+                        js = list(range(0, Kv))
+                    for jv in js:
+                        yield {K: Kv, r: rv, q: qv, j: jv}
+
+    def atoms_of(e):
+        out = []
+        for pw in e.atoms(sp.Piecewise):
+            for (_v, c) in pw.args:
+                for a in c.atoms(sp.core.relational.Relational):
+                    if a not in out:
+                        out.append(a)
+        return out
+
+    for text, lhs, rhs, dom in obligations:
+        resid = lhs - rhs
+        ats = atoms_of(resid)
+        for a in ats:
+            d_ = sp.expand(a.lhs - a.rhs)
+            poly = sp.Poly(d_, j, r, K, q) if d_.free_symbols else None
+            if poly is not None and (poly.total_degree() > 1 or any(abs(c) > 2 for c in poly.coeffs()) or q in d_.free_symbols):
+                raise AnalysisError(f"{rule}: comparison `{a}` in the job partition of {fname} is not a small difference constraint (undecided)")
+        cases: Dict[Tuple[bool, ...], List[dict]] = {}
+        for pt in points(dom):
+            tv = tuple(bool(a.subs(pt)) for a in ats)
+            cases.setdefault(tv, []).append(pt)
+        ok = True
+        witness = None
+        undec = None
+        for tv, pts in cases.items():
+            sub = {a: (sp.true if v else sp.false) for a, v in zip(ats, tv)}
+            e = sp.piecewise_fold(resid).subs(sub) if ats else resid
+            e = sp.expand(sp.simplify(e)) if e.has(sp.Piecewise) else sp.expand(e)
+            # equalities implied by the case: Eq atoms that hold, and pairs of opposite integer inequalities
+            ineqs = []
+            eqs = []
+            for a, v in zip(ats, tv):
+                d_ = sp.expand(a.lhs - a.rhs)
+                if isinstance(a, sp.Eq):
+                    if v:
+                        eqs.append(d_)
+                    continue
+                if isinstance(a, sp.Ne):
+                    if not v:
+                        eqs.append(d_)
+                    continue
+                # normalise to g >= 0 over the integers
+                if isinstance(a, sp.Lt):
+                    g = (-d_ - 1) if v else d_
+                elif isinstance(a, sp.Le):
+                    g = (-d_) if v else (d_ - 1)
+                elif isinstance(a, sp.Gt):
+                    g = (d_ - 1) if v else (-d_)
+                else:  # Ge
+                    g = d_ if v else (-d_ - 1)
+                ineqs.append(sp.expand(g))
+            # the domain: 0 <= r <= K-1, and the range of j of this obligation
+            ineqs += [r, K - 1 - r]
+            if dom == "jmid":
+                ineqs += [j, K - 2 - j]
+            elif dom == "any":
+                ineqs += [j, K - 1 - j]
+            for g1, g2 in itertools.combinations(ineqs, 2):
+                if sp.expand(g1 + g2) == 0:
+                    eqs.append(g1)
+            for eqn in eqs:
+                fs = [v_ for v_ in (j, r, K) if v_ in eqn.free_symbols]
+                if fs and e != 0:
+                    sol = sp.solve(eqn, fs[0], dict=True)
+                    if sol:
+                        e = sp.expand(e.subs(sol[0]))
+            if e == 0:
+                continue
+            bad_pt = next((pt for pt in pts if sp.expand(resid.subs(pt)) != 0), None)
+            if bad_pt is not None:
+                ok = False
+                witness = (bad_pt, sp.expand(lhs.subs(bad_pt)), sp.expand(rhs.subs(bad_pt)))
+                break
+            undec = (tv, e)
+        key = key_base + "|partition|" + text
+        if ok and undec is not None:
+            raise AnalysisError(f"{rule}: `{text}` of the job partition in {fname} is neither proved nor refuted (residual {undec[1]} in case {undec[0]})")
+        ctx.obligation(rule, key, ok, f"src/{fname}:{line_of(loop)}", cases=len(cases), S=str(S), E=str(E))
+        if not ok:
+            pt, lv, rv_ = witness
+            Mv = pt[q] * pt[K] + pt[r]
+            ctx.violation(rule, key, path, line_of(loop),
+                          f"the jobs of the parallel loop do not tile the Gray-code range: `{text}` fails, e.g. for range {Mv} split into "
+                          f"{pt[K]} jobs at job {pt[j]}: got {lv}, needed {rv_} (S(j) = {S}, E(j) = {E}); indices are dropped or counted twice, so the "
+                          f"permanent depends on the number of hardware threads", f"S={S}; E={E}"[:160])
 
 
 def _decl_name(root, did) -> str:
